@@ -6,7 +6,7 @@
     NAMES, so its exact equation is false (Example ckk_names_exact_false: contents differ); proved instead: equal objective value
     for every k and equal sums for k = 2 (PARTIAL; sums for k >= 3, snp, rnp are tested).  Bin completion on named items (repaired code:
     value-level search, then relabelling) is modelled in Model/BinCompletionNamed.v and proved like the others.  Statements only; proofs in Proofs/{Greedy,Packing,Covering,DP,Names,Multifit}Proofs.v. *)
-From Prtpy Require Import Base.Prelude Model.Binner Model.Objectives Model.Greedy Model.Packing Model.Covering Model.KK Model.CG Model.DP Model.CBLDM Model.Multifit Spec.Partition Proofs.GreedyProofs Proofs.PackingProofs Proofs.CoveringProofs Proofs.DPProofs Proofs.KKProofs Proofs.CKKOptimal Proofs.NamesProofs Proofs.CKKManagersProofs Proofs.MultifitProofs Model.BinCompletion Model.BinCompletionNamed Proofs.BCNamedProofs Model.Balanced Proofs.BalancedProofs.
+From Prtpy Require Import Base.Prelude Model.Binner Model.Objectives Model.Greedy Model.Packing Model.Covering Model.KK Model.CG Model.DP Model.CBLDM Model.Multifit Spec.Partition Proofs.GreedyProofs Proofs.PackingProofs Proofs.CoveringProofs Proofs.DPProofs Proofs.KKProofs Proofs.CKKOptimal Proofs.NamesProofs Proofs.CKKManagersProofs Proofs.MultifitProofs Model.BinCompletion Model.BinCompletionNamed Proofs.BCNamedProofs Model.Balanced Proofs.BalancedProofs Model.SNP Proofs.SNPNamesProofs.
 
 Theorem C07_greedy_names :
   forall (A : Type) (valueof : A -> Z) (k : nat) (items : list A),
@@ -152,6 +152,28 @@ Theorem C07_ckk_sums_manager_names :
   ckk (fun v : Z => v) nameof' false k (map valueof items).
 Proof. exact @ckk_sums_manager_names. Qed.
 Print Assumptions C07_ckk_sums_manager_names.
+
+(** sequential number partitioning: two presentations of the same values give the same sums (every k; names determine values) *)
+Theorem C07_snp_names_sums :
+  forall (A B : Type) (valueof nameof : A -> Z) (valueof' nameof' : B -> Z)
+  (k : nat) (items : list A) (items' : list B),
+  map valueof items = map valueof' items' ->
+  names_ok valueof nameof items ->
+  names_ok valueof' nameof' items' ->
+  rmap sums (snp valueof nameof true k items) = rmap sums (snp valueof' nameof' true k items').
+Proof. exact @snp_names_sums_gen. Qed.
+Print Assumptions C07_snp_names_sums.
+
+(** recursive number partitioning: likewise (every k; where rnp raises, both presentations raise the same error) *)
+Theorem C07_rnp_names_sums :
+  forall (A B : Type) (valueof nameof : A -> Z) (valueof' nameof' : B -> Z)
+  (k : nat) (items : list A) (items' : list B),
+  map valueof items = map valueof' items' ->
+  names_ok valueof nameof items ->
+  names_ok valueof' nameof' items' ->
+  rmap sums (rnp valueof nameof true k items) = rmap sums (rnp valueof' nameof' true k items').
+Proof. exact @rnp_names_sums_gen. Qed.
+Print Assumptions C07_rnp_names_sums.
 
 (** bin completion on named items (search on the values, names put back): projects to the value-level run *)
 Theorem C07_bin_completion_names :
